@@ -17,6 +17,10 @@ import (
 	"runtime/debug"
 	"sort"
 	"strings"
+
+	"io"
+
+	log "github.com/sirupsen/logrus"
 )
 
 type PropFail struct {
@@ -43,6 +47,8 @@ var suites = map[string]*Suite{}
 func register(s *Suite) { suites[s.Name] = s }
 
 func main() {
+	log.SetOutput(io.Discard)
+	log.SetLevel(log.PanicLevel)
 	if len(os.Args) < 3 {
 		fmt.Fprintln(os.Stderr, "usage: corr gen|exec|list ...")
 		os.Exit(2)
